@@ -1,4 +1,5 @@
 import BddProofs.RawOps
+import BddProofs.RawGetMut
 /-! # C19 — RawTable behaves as a hash map and stays memory-safe under every history
 
 Model: `R.Raw` (`BddModel/Raw.lean`): slots FREE / DEAD / `full status key value`; outcomes `ok`,
@@ -53,6 +54,15 @@ example : RInvFull hashOf (Raw.new : Raw κ ν) := new_inv hashOf
 example (ops : List (Op κ ν)) (h : ops.length + 2 ≤ 2 ^ 63) (hr : ∀ a, Op.reserve a ∈ ops → ops.length + a ≤ 2 ^ 63) :
     fits ops 0 := fits_of_bound ops 0 (by omega) (fun a ha => by have := hr a ha; omega)
 
+
+/-- `get_mut`: finds exactly what `get` finds (returns the present value, `None` for an absent key), and a
+write through the returned reference replaces the value of that key and nothing else; counters and the
+invariant are untouched -/
+theorem C19_get_mut {t : Raw κ ν} (hI : RInvFull hashOf t) (k : κ) (v : ν) :
+    ∃ t', getMut hashOf dbg t k v = .ok (t', abs t k) ∧ RInvFull hashOf t' ∧ t'.len = t.len ∧
+      (∀ k', abs t' k' = if k' = k ∧ abs t k ≠ none then some v else abs t k') :=
+  getMut_spec hashOf dbg hI k v
+
 end R
 #print axioms R.C19_memory_safe
 #print axioms R.C19_behaves_as_map
@@ -60,3 +70,4 @@ end R
 #print axioms R.C19_lookup
 #print axioms R.C19_insert
 #print axioms R.C19_iteration
+#print axioms R.C19_get_mut
